@@ -100,24 +100,6 @@ theorem body_matches (cacheLen maxProc : Nat) (fast : Bool) (offset : Nat) (ops 
   rw [hcfg] at this
   exact this
 
-theorem mem_drop_iff {s : State} (hi : Inv s) (h : Header) :
-    h ∈ s.sched.drop s.ret.length ↔ h ∈ s.sched ∧ s.offset ≤ h.num := by
-  constructor
-  · intro hm
-    obtain ⟨i, hi'⟩ := List.mem_iff_getElem?.mp hm
-    rw [List.getElem?_drop] at hi'
-    have := hi.schedNum _ _ hi'
-    exact ⟨List.mem_iff_getElem?.mpr ⟨_, hi'⟩, by rw [hi.offsetEq]; omega⟩
-  · rintro ⟨hm, hlo⟩
-    obtain ⟨i, hi'⟩ := List.mem_iff_getElem?.mp hm
-    have := hi.schedNum _ _ hi'
-    have hoff := hi.offsetEq
-    apply List.mem_iff_getElem?.mpr
-    refine ⟨i - s.ret.length, ?_⟩
-    rw [List.getElem?_drop]
-    have : s.ret.length + (i - s.ret.length) = i := by omega
-    rw [this]; exact hi'
-
 /-- **No task lost, none duplicated.**  For each kind (bodies; receipts in fast/light mode) a header occurs at most
 once across the task queue, all in-flight requests and the done pool, and only if it is scheduled and not yet
 returned.  As long as no operation answered errInvalidChain (`failed = false`; the downloader aborts the sync on
